@@ -12,7 +12,7 @@ Here the class is enumerated, not drawn:
   accepts (up to 8) x the two ways of standing in block L (reached by a read that crossed into it; standing at its end with the
   NEXT block not yet decoded -- the lazily decoding readers still hold block L there) x every target block of
         { L+1, L+2, L+3, 2L+1, 2L+2, L, L-1, 0, last }            (forward to each of the next three, the per-channel-unit aliases, back)
-  for L = 0 .. 4: `seek` (SEEK_SET / SEEK_CUR alternating, so that both entry forms of sf_seek run), position probe, a read of
+  for L = 0 .. 4: `seek` (SEEK_SET / SEEK_CUR / SEEK_END in turn, so that the three entry forms of sf_seek run), position probe, a read of
   B + 3 frames (it crosses into the block after the target: a seek that does not move the FILE position shows there), probe.
 The block length B is the format's own (vlib/geometry.py `block_frames`, SDS 60 / 40 / 30, ALAC 4096), not a hint.
 
@@ -139,11 +139,13 @@ def matrix_script(f, ch, B, F, filehex, tys, maxL=4):
                     pos = (L + 1) * B
                 L_.append("seek h0 0 1")
                 # --- seek into block t, read across its end ---
-                tgt = min(t * B + (a if k % 3 else 0), max(F - 1, 0))
-                if k % 2 == 0:
+                tgt = min(t * B + (a if k % 4 else 0), max(F - 1, 0))
+                if k % 3 == 0:
                     L_.append("seek h0 %d 0" % tgt)
-                else:
+                elif k % 3 == 1:
                     L_.append("seek h0 %d 1" % (tgt - pos))
+                else:
+                    L_.append("seek h0 %d 2" % (tgt - F))
                 L_ += ["seek h0 0 1", "r h0 %s %s %d" % (ty2, "f" if k % 4 else "i", (B + 3) if k % 4 else (B + 3) * ch), "seek h0 0 1"]
                 k += 1
     L_.append("close h0")
